@@ -231,6 +231,20 @@ def cases_for(tier):
                 fz = [(('frozenset', [(('commented', ('int', j), txt) if (i == ci and j == 1) else ('int', j))
                                       for j in range(1, k + 1)]), ('int', k)) for i, k in enumerate(keys)]
                 cases.append(('sorted-keys', ('dict', fz), dict(width=r.choice(widths), sort_dict_keys=True)))
+                # keys under two and three wrappers
+                def multi(kterm, depth):
+                    t = kterm
+                    for j in range(depth):
+                        t = (('commented', t, txt + ' %d' % j) if j % 2 == 0 else ('trailing', t, 'tail') if t[0] == 'tuple' else ('commented', t, 'again'))
+                    return t
+                for depth in (2, 3):
+                    pairs2 = [((multi(('int', k), depth) if i == ci else ('int', k)), ('str', 'v%d' % k)) for i, k in enumerate(keys)]
+                    cases.append(('sorted-keys', ('dict', pairs2), dict(width=r.choice(widths), sort_dict_keys=True)))
+                    pairs3 = [((multi(('tuple', [('int', k), ('int', 0)]), depth) if i == ci else ('tuple', [('int', k), ('int', 0)])), ('int', k))
+                              for i, k in enumerate(keys)]
+                    cases.append(('sorted-keys', ('dict', pairs3), dict(width=r.choice(widths), sort_dict_keys=True)))
+                    pairs4 = [((multi(('str', 'k%d' % k), depth) if i == ci else ('str', 'k%d' % k)), ('int', k)) for i, k in enumerate(keys)]
+                    cases.append(('sorted-keys', ('dict', pairs4), dict(width=r.choice(widths), sort_dict_keys=True)))
                 # subclass instances as keys: the open finding
                 sub = [(('sub', 'plain', kt(k, ci, i, txt)), ('int', k)) for i, k in enumerate(keys)]
                 cases.append(('sorted-keys', ('dict', sub), dict(width=r.choice(widths), sort_dict_keys=True)))
